@@ -10,5 +10,7 @@ WK_set_stale == (11 :> "set") @@ (12 :> "stale")
 WK_sweep == (11 :> "sweep")
 WK_sweep_set == (11 :> "sweep") @@ (12 :> "set")
 WK_sweep_inv == (11 :> "sweep") @@ (12 :> "invalidate")
+WK_cancel == (11 :> "cancel")
+WK_cancel_sweep == (11 :> "cancel") @@ (12 :> "sweep")
 WK_none == [w \in {} |-> "set"]
 =============================================================================
